@@ -34,7 +34,9 @@ func init() {
 		// 1: IgnoreUnknown set as well; 2: the parser's flag sits in a group added after the commands and after a parse selecting each of them;
 		// 3: an int option of the parser takes its default from an environment variable that holds an unconvertible value (every vector is then faulty)
 		// 4: the parser has an argument-taking option -o/--out: a missing argument (at the end, or for -o in the middle of a cluster) is a fault like any other
-		extra := c.Deviate(5)
+		// 5: the same parser has already parsed the path to its last command and is re-used as it is (nothing is required in these trees)
+		// 6: an unknown-option handler is installed that hands the arguments back unchanged: an unknown option is then no fault, every other fault still is
+		extra := c.Deviate(7)
 		mc := c.Choose(5)     // Execute, Execute+error, CommandHandler, CommandHandler+error, completion mode
 		mode, inject := mc/2, mc%2 == 1
 		key := fmt.Sprintf("s%d/o%d/r%d/p%d/h%d/e%d", si, om, rq, ps, hm, extra)
@@ -77,9 +79,13 @@ func init() {
 		}
 		modeName := []string{"Execute", "CommandHandler", "completion"}[mode]
 		c.Describe(func() interface{} {
-			return map[string]interface{}{"tree": describeTree(td.d.Top), "mode": modeName, "command_returns_error": inject, "argv": argv}
+			return map[string]interface{}{"tree": describeTree(td.d.Top), "mode": modeName, "command_returns_error": inject, "argv": argv, "extra(5=parser re-used as it is,6=unknown-option handler)": extra}
 		})
 		cfg := &ref.Config{D: td.d}
+		if extra == 6 {
+			cfg.Handler = ref.HandlerKeep
+			c.Hit("unknown-option-handler")
+		}
 		if mode == 2 {
 			cfg.Env = map[string]string{"GO_FLAGS_COMPLETION": []string{"1", "verbose", "yes"}[len(argv)%3]} // any non-empty value means completion
 		} else if extra == 3 {
@@ -114,6 +120,18 @@ func init() {
 			for _, st := range b.Execs {
 				st.Err = errExec
 			}
+		}
+		if extra == 5 {
+			c.Hit("parser-re-used")
+			var path []string
+			for x := td.cmds[len(td.cmds)-1]; x != nil && x.Parent != nil; x = x.Parent {
+				path = append([]string{x.Name}, path...)
+			}
+			if wr := runParser(b, &ref.Config{D: td.d}, path, runOpts{}); wr.Panic != nil {
+				c.Fail("panic|"+wr.PanicSite, fmt.Sprint("earlier parse ", path, ": ", wr.Panic))
+				return
+			}
+			rezero(b)
 		}
 		completions := 0
 		if mode == 2 {
@@ -202,11 +220,11 @@ func init() {
 		Body:       body,
 		DevBound:   func(th bool) int { return 1 },
 		Rule: "every command tree with <= 3 (quick) / <= 4 (thorough) commands and depth <= 3 with an executable command at every node, HelpFlag set; one deviation from the plain tree at a time: " +
-			"subcommands-optional on any subset of nodes incl. the parser, a required option (hidden as well on even nodes) on any node, required positionals on any node, any subset of commands hidden, IgnoreUnknown set in addition (together with an int positional), the parser's flag in a group added after the commands and after a parse that selected each of them, an []int option of the parser whose environment default (three values, env-delim) does not convert in the middle (together with an optional int positional), an argument-taking option -o/--out of the parser with the extra tokens {-o, -pop w1, -po w1}: its argument missing at the end of the vector or because -o is not the last letter of its cluster; " +
+			"subcommands-optional on any subset of nodes incl. the parser, a required option (hidden as well on even nodes) on any node, required positionals on any node, any subset of commands hidden, IgnoreUnknown set in addition (together with an int positional), the parser's flag in a group added after the commands and after a parse that selected each of them, an []int option of the parser whose environment default (three values, env-delim) does not convert in the middle (together with an optional int positional), an argument-taking option -o/--out of the parser with the extra tokens {-o, -pop w1, -po w1}: its argument missing at the end of the vector or because -o is not the last letter of its cluster, a parser that has already parsed the path to its last command and is re-used as it is, an unknown-option handler that hands the arguments back unchanged (unknown options are then no fault, every other fault still is); " +
 			"x {Execute, CommandHandler, completion mode} x {command succeeds, command returns an error} x every sequence of <= 3 tokens (<= 4 on trees of <= 2 commands quick / <= 3 commands thorough) over command names, every node's flag and the fault tokens " +
 			"{unknown option, argument to a flag, --help, -h, -h followed by an unknown character in one cluster, unknown word, a word and a number (the required positional is an int on some nodes: conversion faults, also after the -- terminator)}; this contains every single fault at every position of every valid vector of that length; oracle = CLM verdict vs call log",
 		Assumptions:  []string{"when no command is active there is nothing to Execute; a CommandHandler is still called once with a nil command (as its documentation says)"},
-		RequiredHits: []string{"completion-mode", "clean|Execute|calls=1", "clean|CommandHandler|calls=1", "clean|Execute|calls=0", "error-passed-through", "fault|help", "fault|unknown flag", "fault|required", "fault|command required", "fault|unknown command", "fault|no argument for bool", "fault|expected argument", "bad-environment-default", "argument-taking-option"},
+		RequiredHits: []string{"completion-mode", "clean|Execute|calls=1", "clean|CommandHandler|calls=1", "clean|Execute|calls=0", "error-passed-through", "fault|help", "fault|unknown flag", "fault|required", "fault|command required", "fault|unknown command", "fault|no argument for bool", "fault|expected argument", "bad-environment-default", "argument-taking-option", "parser-re-used", "unknown-option-handler"},
 		Bound:        [2]string{"token sequences <= 3, trees <= 3 commands, <= 1 declaration deviation", "token sequences <= 4 (trees <= 3 commands) / <= 3 (4 commands), <= 1 declaration deviation"},
 		BudgetS:      [2]int{170, 1500},
 	})
